@@ -39,7 +39,22 @@ func (in *Interp) eval(fr *frame, v ssa.Value) Value {
 			return in.chanRecv(fr, x, i.CommaOk, i.Type(), i.Pos())
 		}
 	case *ssa.BinOp:
-		return in.binop(i.Op, i.X.Type(), in.get(fr, i.X), in.get(fr, i.Y), i.Pos())
+		x, y := in.get(fr, i.X), in.get(fr, i.Y)
+		if i.Op == token.EQL || i.Op == token.NEQ {
+			// comparison of an interface with a concrete operand: the concrete one is boxed first
+			_, xi := i.X.Type().Underlying().(*types.Interface)
+			_, yi := i.Y.Type().Underlying().(*types.Interface)
+			if xi && !yi {
+				if _, isNil := y.(NilPtr); !isNil || !isNilConst(i.Y) {
+					y = &Iface{T: i.Y.Type(), V: y}
+				}
+			} else if yi && !xi {
+				if _, isNil := x.(NilPtr); !isNil || !isNilConst(i.X) {
+					x = &Iface{T: i.X.Type(), V: x}
+				}
+			}
+		}
+		return in.binop(i.Op, i.X.Type(), x, y, i.Pos())
 	case *ssa.Call:
 		return in.doCall(fr, &i.Call, i.Pos())
 	case *ssa.MakeInterface:
@@ -61,7 +76,11 @@ func (in *Interp) eval(fr *frame, v ssa.Value) Value {
 		if !ok {
 			in.goPanicf(i.Pos(), "invalid memory address or nil pointer dereference")
 		}
-		return &((*p).(Struct)[i.Field])
+		st, isSt := (*p).(Struct)
+		if !isSt {
+			in.fail("unsupported", fmt.Sprintf("field address of %T in %s at %s", *p, fr.fn, in.at(i.Pos())))
+		}
+		return &st[i.Field]
 	case *ssa.Field:
 		return copyVal(in.get(fr, i.X).(Struct)[i.Field])
 	case *ssa.IndexAddr:
@@ -591,6 +610,11 @@ func (in *Interp) typeAssert(i *ssa.TypeAssert, x Value) Value {
 	return val
 }
 
+func isNilConst(v ssa.Value) bool {
+	c, ok := v.(*ssa.Const)
+	return ok && c.Value == nil
+}
+
 func (in *Interp) binop(op token.Token, xt types.Type, x, y Value, pos token.Pos) Value {
 	switch a := x.(type) {
 	case *Term:
@@ -818,7 +842,10 @@ func (in *Interp) valEq(av, bv Value, pos token.Pos) *Term {
 		return Boolc(av == bv.(StrV))
 	case Struct:
 		r := Boolc(true)
-		bs := bv.(Struct)
+		bs, ok := bv.(Struct)
+		if !ok {
+			in.fail("unsupported", fmt.Sprintf("comparison of a struct with %T at %s", bv, in.at(pos)))
+		}
 		for i := range av {
 			r = And(r, in.valEq(av[i], bs[i], pos))
 		}
